@@ -58,7 +58,7 @@ CHECKS = {
               "per (connection, id, direction) projection: unary = one header+body request and one header+trailer+(body|non-OK status) response; stream c->s = OPEN BODY* TRAILER? RESET? with nothing after the reset; "
               "s->c = HEADER? BODY* TRAILER(status) then only resets answering a late body, trailer present iff the handler returned on a live un-reset stream, no reset before that trailer; constant method/source/destination, swapped in responses; "
               "response metadata only on the first response envelope; server emits only ids it has read. Non-trivial = a projection with >=4 envelopes or a reset, or an early handler return; distinct = canonical case hash."),
-        jobs=[dict(test="TestC06", quick=2400, thorough=60000), dict(test="TestC06Race", quick=300, thorough=3000, shards=4)],
+        jobs=[dict(test="TestC06", quick=2400, thorough=60000), dict(test="TestC06Race", quick=300, thorough=3000, shards=4), dict(test="TestC06Cancel", quick=240, thorough=3000)],
         floors={"family=c01": 0.1, "family=c02": 0.2, "family=c03": 0.1, "family=c04": 0.1, "early_return=true": 0.1},
         assumptions=COMMON_ASSUMPTIONS,
     ),
@@ -75,5 +75,26 @@ CHECKS = {
               dict(test="FuzzC08", kind="fuzz", quick=0, thorough=180)],
         floors={"parser.valid": 0.05, "parser.malformed": 0.2, "e2e.api": 0.01, "e2e.header.valid": 0.005},
         assumptions=COMMON_ASSUMPTIONS + ["the timeout parser is reached through the verif-tagged export VerifParseGrpcTimeout (same function the server calls)"],
+    ),
+    "C07": dict(
+        level="fault_enumeration",
+        rule=("rapid-generated scenarios (stream kind x caller sends 0..4 then optionally half-closes x handler sends 0..6 in recv-first/echo/send-first order, consumes everything it is sent and then waits on its context x 0..5 responses left unread "
+              "x explicit cancel or virtual-clock deadline x 0..3 bystander RPCs x delivery tape); every envelope delivery is released one at a time, and the cancellation is placed after each prefix p=0..L of the delivery trace "
+              "(all positions; quick tier samples 7 positions when L>10). Oracle: every receive issued after the cancellation returns; what is received overall is a prefix of what the handler really sent; within unread+1 receives the result is the Canceled/DeadlineExceeded status and stays so; never io.EOF; "
+              "a later send fails with the context's error; Header() returns; a reset for the id is on the tap; the handler's context is done at the next quiescent point and the handler has exited; bystanders complete exactly; the cancelled stream's wire projection conforms (C06). "
+              "Non-trivial = trace length >=2, or >=1 unread response, or deadline; distinct = distinct scenario; counters.positions = number of (scenario, position) executions."),
+        jobs=[dict(test="TestC07", quick=480, thorough=6000)],
+        floors={"unread>=3": 0.1, "deadline=true": 0.3, "kind=bidi": 0.2, "kind=server": 0.2, "kind=client": 0.2},
+        assumptions=COMMON_ASSUMPTIONS + ["handlers that ignore >=2 queued requests and then wait are documented head-of-line blocking and generated under C11, not here"],
+    ),
+    "C11": dict(
+        level="exploration",
+        rule=("(a) exhaustive grid: handler returns (nil/error) after k of n caller messages for all 0<=k<n<=8 x {client,bidi}, released only once the n-k unread bodies have settled in the server; caller cancels with m responses unread for all 0<=m<=8 x {server,bidi}; "
+              "(b) rapid cases over the same two modes plus scripted peers that send more than expected: a scripted caller sending 1..6 bodies/trailers after its half-close to a handler that lingers or has returned, and a scripted server sending 1..6 bodies/trailers/resets/replies after the trailer (or after the unary reply); 0..4 bystander RPCs (unary and ping-pong streams) in flight, one probe unary call with a 1h virtual deadline started afterwards. "
+              "Oracle: probe returns its exact reply (DeadlineExceeded means everything was stuck), bystanders complete exactly, the abandoned call terminates (with the handler's status for early returns), no definitive deadlock (watchdog). "
+              "Non-trivial = >=2 unread bodies, >=3 unread responses, surplus envelopes, or >=1 bystander; distinct = distinct case."),
+        jobs=[dict(test="TestC11Grid", kind="enum", quick=1, thorough=1, shards=1), dict(test="TestC11", quick=800, thorough=20000)],
+        floors={"mode=handler-early": 0.1, "mode=caller-cancel": 0.1, "mode=client-extra": 0.1, "mode=server-extra": 0.1},
+        assumptions=COMMON_ASSUMPTIONS + ["a caller that stops reading without cancelling is documented head-of-line blocking (the quantifier lists cancellation) and is not generated"],
     ),
 }
